@@ -8,7 +8,7 @@ from __future__ import annotations
 import ast
 import z3
 
-from .core import (BOOL, INT, STR, CLASSES, ConcreteSeq, LiveView, Path, PyExc, Snapshot, SV, SymIter,
+from .core import (BOOL, INT, STR, CLASSES, ConcreteSeq, LazyContainer, LiveView, Path, PyExc, Snapshot, SV, SymIter,
                    StateView, TDict, TList, TObj, TOpt, TRefBase, TSet, TTuple, TUn, Ty, Unsupported,
                    _TBool, _TInt, _TStr, class_mro, declare_exception, option_sort, EXC_PARENTS)
 from .interp import (BoundMethod, Builtin, ClassRef, ExcValue, GenObj, Interp, LoopSpec, ModuleNS,
@@ -100,7 +100,12 @@ class Model:
         self.install_builtins()
 
     # ---------------------------------------------------------------- registry
-    def add(self, c: Contract):
+    def add(self, c: Contract, variant=None):
+        if variant:
+            # a second verification mode of the same function (never used to resolve calls)
+            self.contracts[(c.cls or "", mangle(c.cls, c.method_name) + "#" + variant)] = c
+            c.name = c.name + "[" + variant + "]"
+            return c
         if c.cls:
             self.contracts[(c.cls, mangle(c.cls, c.method_name))] = c
         else:
@@ -140,6 +145,9 @@ class Model:
     def b_len(self, it: Interp, args, kw):
         v = args[0]
         p = it.path
+        if isinstance(v, LazyContainer) and v.resolved is None:
+            return len(v.items)
+        v = it.deref(v)
         if isinstance(v, SV) and isinstance(v.ty, TOpt):
             v = p.project(v.ty, v.z)
         if v is None:
@@ -372,10 +380,10 @@ class Model:
         return ConcreteSeq(items, "list")
 
     def new_set(self, it, items, node):
-        raise Unsupported("set literal / set() needs a declared type")
+        return LazyContainer("set", items)
 
     def new_dict(self, it, items, node):
-        raise Unsupported("dict literal needs a declared type")
+        return LazyContainer("dict", items)
 
     def to_str(self, it, v):
         if isinstance(v, str):
@@ -428,14 +436,17 @@ class Model:
         x = z3.Const(p.fresh_name("cx"), itd.elem_ty.sort())
         env2 = {"__parent__": env}
         p.ghost["__pure__"] = p.ghost.get("__pure__", 0) + 1
+        saved_b = p.ghost.get("__binders__", [])
         try:
             xv = self.pure_project(it, itd.elem_ty, x)
             it.assign(g.target, xv, env2)
             conds = [it.pure_eval(c, env2) for c in g.ifs]
             condz = _zb(_zand([_zb(it.truthy(c)) for c in conds])) if conds else z3.BoolVal(True)
+            p.ghost["__binders__"] = saved_b + [(x, z3.And(itd.member(x), condz))]
             val = it.pure_eval(e.elt, env2)
         finally:
             p.ghost["__pure__"] -= 1
+            p.ghost["__binders__"] = saved_b
         out_ty, valz = self.type_of_value(it, val)
         member = itd.member
 
@@ -444,7 +455,21 @@ class Model:
             if z3.is_const(valz) and valz.eq(x):
                 return z3.substitute(z3.And(member(x), condz), (x, y))
             return z3.Exists([x], body)
-        distinct = itd.distinct and z3.is_const(valz) and valz.eq(x)
+        ident = z3.is_const(valz) and valz.eq(x)
+        if ident:
+            distinct = itd.distinct
+        elif itd.distinct is True or z3.is_expr(itd.distinct):
+            # injectivity of the element map on the (distinct) source: a formula to be proved by whoever
+            # relies on duplicate-freedom
+            x2 = z3.Const(p.fresh_name("cx2"), itd.elem_ty.sort())
+            g1 = z3.And(member(x), condz)
+            g2 = z3.substitute(g1, (x, x2))
+            v2 = z3.substitute(valz, (x, x2))
+            distinct = z3.ForAll([x, x2], z3.Implies(z3.And(g1, g2, x != x2), valz != v2))
+            if z3.is_expr(itd.distinct):
+                distinct = z3.And(itd.distinct, distinct)
+        else:
+            distinct = False
         s = Snapshot(out_ty, mem, distinct, None, kind="list" if kind != "set" else "set")
         if kind == "gen":
             return SymIter(out_ty, mem, distinct, label="genexpr")
@@ -472,9 +497,38 @@ class Model:
         raise Unsupported(f"type of {v!r}")
 
     def pure_getattr(self, it, obj, name, node):
+        if isinstance(obj, SV) and isinstance(obj.ty, TObj):
+            from .core import field_type
+            owner, fty = field_type(obj.ty.cls, name)
+            if owner is not None:
+                key, fty, arr = it.path.field_arr(obj.ty.cls, name)
+                return SV(fty, z3.Select(arr, obj.z))
         raise Unsupported(f"pure attribute .{name}")
 
     def pure_call(self, it, pe, e, env):
+        """Fork-free calls under a binder: dict.get(k[, default]) only."""
+        p = it.path
+        if isinstance(e.func, ast.Attribute) and e.func.attr == "get" and not e.keywords:
+            obj = it.deref(pe.ev(e.func.value, env))
+            if isinstance(obj, SV) and isinstance(obj.ty, TDict):
+                ty = obj.ty
+                os_ = option_sort(ty.v.sort())
+                k = pe.ev(e.args[0], env)
+                ent = z3.Select(p.content(obj), it.key_inject(ty.k, k))
+                present = z3.Not(os_.is_none(ent))
+                default = pe.ev(e.args[1], env) if len(e.args) > 1 else None
+                try:
+                    dz = p.inject(ty.v, default)
+                    return SV(ty.v, z3.If(present, os_.get(ent), dz))
+                except (Unsupported, PyExc):
+                    # default of another type: the key must be present for every element considered
+                    binders = p.ghost.get("__binders__", [])
+                    guard = z3.And(*[g for _, g in binders]) if binders else z3.BoolVal(True)
+                    xs = [x for x, _ in binders]
+                    f = z3.Implies(guard, present)
+                    p.oblige(f"dict.get-default-unused@{getattr(e, 'lineno', '?')}",
+                             z3.ForAll(xs, f) if xs else f, it.where(e), "typing")
+                    return SV(ty.v, os_.get(ent))
         raise Unsupported("pure call")
 
     def pure_subscript(self, it, pe, e, env):
@@ -543,7 +597,15 @@ class Model:
         if mods:
             it.heap_writes += 1
         for m in mods:
-            if isinstance(m, tuple):
+            if isinstance(m, tuple) and isinstance(m[0], TRefBase):
+                # (Ty, ref_z): only that object's content changes
+                ty, rz = m
+                fresh = z3.Const(p.fresh_name("cont"), ty.content_sort())
+                p.heap[ty.key()] = z3.Store(p.heap_arr(ty), rz, fresh)
+            elif isinstance(m, tuple) and len(m) == 3:
+                key, fty, arr = p.field_arr(m[0], m[1])
+                p.fields[key] = z3.Store(arr, m[2], z3.Const(p.fresh_name("fld"), fty.sort()))
+            elif isinstance(m, tuple):
                 p.havoc_field(m[0], m[1], "call")
             elif isinstance(m, str):
                 p.ghost[m] = self.havoc_ghost(it, m)
